@@ -18,22 +18,22 @@ CHECKS = {
          "Messages and delays outside the alphabet are not explored; the clock is injected through the limiter's only func() time.Time field (found by type); output captured from the standard logger.",
          "DESIGN.md §4 C20"),
  "C01": ("A-sequential-explorer",
-         "exhaustive deviation-bounded enumeration of event strings on the real MotionProcessor (real detector, ring, window), trace oracle on the recorder sink",
-         "Every motion bit-string to depth 12 (15 thorough) and every string to depth 10 (12) with <=2 deviations (bad frame, camera reset, disk-check/creation refusal, closed window) for every configuration of the recorder lattice (99 quick / 297 thorough, ring capacities 1..9), through both entry points; the sink trace must be consecutive ids, globally increasing, and tile after a near re-trigger.",
+         "explicit-state BFS to a fixpoint of canonical processor states + exhaustive deviation-bounded enumeration of event strings on the real MotionProcessor (real detector, ring, window); trace oracle on the recorder sink",
+         "Fixpoint: every history of any length over {motion frame, still frame} with <=2 deviations (bad frame, camera reset, disk-check/creation refusal, closed window) for every configuration of the recorder lattice (99 quick + 4 fps-2/3 configurations / 297 thorough, ring capacities 1..9), all configurations converge. Trees (key-free second line): every motion bit-string to depth 12 (15) and every string to depth 10 (12) with <=2 deviations, both entry points. The sink trace must be consecutive ids, globally increasing, and tile after a near re-trigger.",
          "Streams longer than the depth bound and configurations outside the lattice are not enumerated (the code depends on them only through cap/minF/maxF). Frame identity rides in Status.FrameCount.",
          "DESIGN.md §4 C01"),
  "C02": ("A-sequential-explorer",
-         "same exhaustive enumeration as C01; oracle on the first frame written after each successful start",
+         "same fixpoint search and trees as C01; oracle on the first frame written after each successful start",
          "Same executions as C01; for each successful start at trigger t the frames written while t is processed must be exactly max(t-(cap-1), last+1, 1)..t. Every ring phase (wrap position x mark position x not-yet-full) of capacities 1..9 is reached by the enumeration.",
          "As C01.",
          "DESIGN.md §4 C02"),
  "C03": ("A-sequential-explorer",
-         "exhaustive enumeration of motion bit-strings over a min/max-length lattice on the real MotionProcessor; per-recording stop-position oracle",
+         "explicit-state BFS to a fixpoint + exhaustive enumeration of motion bit-strings over a min/max-length lattice on the real MotionProcessor; per-recording stop-position oracle",
          "Every motion bit-string of length min(15 (19 thorough), cap+2*maxF+3) for every configuration of a lattice built around the limits (min-secs 0..4, max-secs up to min+4, fps 1..3, preview 0/1, trigger 0..2), so motion at every offset incl. the last frame before the limit and the frame at the cap; stop position must equal the first offset p >= min(q+minF-1, maxF).",
          "Configurations whose two-recording horizon exceeds the depth cap are covered to the cap only (count reported in evidence).",
          "DESIGN.md §4 C03"),
  "C04": ("A-sequential-explorer",
-         "exhaustive enumeration of motion strings x per-frame gate answers (real window.Window with injected clock at the boundaries, disk check, file creation), iff-oracle",
+         "explicit-state BFS to a fixpoint with every gate answer available at every frame + exhaustive deviation-bounded trees of motion strings x per-frame gate answers (real window.Window with injected clock at the boundaries, disk check, file creation); iff-oracle",
          "Every event string to depth 8 (9) with <=2 (3) per-frame gate deviations from the full menu (window clock at start-1ns/start/start+1s/stop-1ns/stop/stop+1s/other day for a day window, a window spanning midnight and no window; disk check refused; creation refused; combinations), trigger-frames 0..3; a start must happen iff all five conditions of the statement hold, using the harness's own interval arithmetic.",
          "CPTVFileRecorder.checkDiskSpace itself (statfs arithmetic) is exercised in the C10/C11 file-level harness, not here.",
          "DESIGN.md §4 C04"),
@@ -48,17 +48,17 @@ CHECKS = {
          "Budget is read with Bucket.Available() at the same clock instant as each request (idempotent).",
          "DESIGN.md §4 C06"),
  "C12": ("A-sequential-explorer",
-         "exhaustive enumeration of event strings x fault placements on the real MotionProcessor with three protocol-monitored sinks; recovery suffix",
+         "explicit-state BFS to a fixpoint with per-event failing sink calls + exhaustive enumeration of event strings x fault placements on the real MotionProcessor with three protocol-monitored sinks (and, first stage, three real file recorders with every file-system operation failing); recovery suffix",
          "Every event string over {motion frame, still frame, bad frame, reset, test-recording request} to length 6 (7) with every placement of one failing sink call, and to length 4 (6) with every pair, continuous recorder on/off, 6 (8) configurations incl. the real Lepton parser; per-sink protocol monitors, recovered panics, and a fault-free suffix that must be recorded exactly as predicted.",
          "First stage (overlay): the same processor with three REAL CPTVFileRecorders, every event string of length 3 (4) with every single file-system operation failing (os->vos), no panic allowed. Second stage: harness monitors with CPTVFileRecorder's closing behaviour (closed even when stop errors).",
          "DESIGN.md §4 C12"),
  "C13": ("A-sequential-explorer",
-         "exhaustive enumeration of frame/bad-frame strings on the real MotionProcessor (harness parser and real lepton3.ParseRawFrame) with a differential oracle; exhaustive zero-pixel-position / boundary-value sweep of the Lepton parser",
+         "explicit-state BFS to a fixpoint over {motion, still, bad frame} keyed on the pair (run, run with bad frames deleted) + exhaustive trees on the real MotionProcessor (harness parser and real lepton3.ParseRawFrame) with a differential oracle; exhaustive zero-pixel-position / boundary-value sweeps of the Lepton and Boson parsers",
          "Processor level: every {motion, still} string to depth 10 (12) with <=2 (3) bad frames at any position, recorder lattice, plus passes with the real Lepton parser and with continuous/test recordings on; bad ids must never reach a sink, the open recording must end within the bad-frame event, and deleting the bad frames must not change detection results or (outside a cut) the sink trace. Parser level: every single and double zero position x edge-pixels 0..2 x three resolutions, every pixel position x six byte-order-revealing values, telemetry words over boundary values.",
          "The Boson parser (package main) is swept the same way in an overlay stage (plus streams with bad frames through the real handleConn); its evidence is merged. Arbitrary 16-bit frame contents outside the alphabets are not enumerated.",
          "DESIGN.md §4 C13"),
  "C17": ("A-sequential-explorer",
-         "exhaustive prefix enumeration x tail-pattern menu on the real MotionProcessor with monitored continuous/test/motion sinks; differential against the request-free run",
+         "explicit-state BFS to a fixpoint over {motion, still, reset, request} (request at every offset, streams of any length) + exhaustive prefix enumeration x tail-pattern menu on the real MotionProcessor with monitored continuous/test/motion sinks; differential against the request-free run",
          "Every prefix over {motion, still, reset} of length 6 (8), then a test-recording request, one of six 23-frame tail patterns, a second request and a second tail; 48 configurations (max-secs 0..4, fps 1..3, continuous on/off, window open/closed, motion sink throttled). Continuous sink must tile the stream in files of max-secs*fps+1 frames; each request must give exactly 21 consecutive frames from the next processed frame; the motion-sink trace must equal the request-free run.",
          "Tails are drawn from a fixed menu rather than all 2^23 patterns; file placement and space-based pruning of constant-recordings/ depend on the live file system and are not enumerated.",
          "DESIGN.md §4 C17"),
